@@ -260,8 +260,8 @@ func (p *wat2cWorker) buildFunc_ins(w io.Writer, fn *ast.Func, stk *valueTypeSta
 			defer func() { p.Tracef("buildFunc_ins: %s%s end: %v\n", indent, token.INS_ELSE, stk.String()) }()
 
 			// 这是静态分析, 需要消除 if 分支对栈分配的影响
-			for _, retType := range i.Results {
-				stk.Pop(retType)
+			for k := len(i.Results) - 1; k >= 0; k-- {
+				stk.Pop(i.Results[k])
 			}
 
 			// 重新开始
